@@ -536,12 +536,50 @@ func c12Names(r *rand.Rand, n int) (names []string, mode string) {
 }
 
 func genC12(c *Ctx) {
-	r := c.R
-	maxUps := c.N(5, 8)
-	emit := func(files []c12File, ups []c12File) {
+	genC12Workspaces(c, 1, func(files []c12File, ups []c12File) {
 		out := c12Run(c, files, ups)
 		c.Emit("c12.run", out)
+	})
+	r := c.R
+	// 3. resolveIncludePaths on its own
+	for i := 0; i < c.N(300, 5000); i++ {
+		names := []string{"main.journal", "a.journal", "b.journal", "sub/c.journal", "sub/e.journal"}
+		n := pick(r, names)
+		ts := c12Targets(r, n, names, 50)
+		text := c12Journal(r, c12FakeDir, n, ts, r.IntN(2))
+		c.Emit("c12.contrib", c12ContribCase(c, n, text))
 	}
+}
+
+// c12MembersOnly projects a c12.run case to what property C10 says about a workspace: which
+// files the workspace's resolved include tree holds, and in which order (op c10.ws).
+func c12MembersOnly(out map[string]any) map[string]any {
+	impl := out["impl"].(map[string]any)
+	mem := func(v any) any { return v.(map[string]any)["members"] }
+	p := map[string]any{"root": impl["root"], "init": mem(impl["init"]), "order0": impl["order0"]}
+	var steps []any
+	for _, s := range impl["steps"].([]any) {
+		st := s.(map[string]any)
+		steps = append(steps, map[string]any{"mid": mem(st["mid"]), "midOrder": st["midOrder"],
+			"post": mem(st["post"]), "postOrder": st["postOrder"]})
+	}
+	if steps == nil {
+		steps = []any{}
+	}
+	p["steps"] = steps
+	q := map[string]any{}
+	for k, v := range out {
+		q[k] = v
+	}
+	q["impl"] = p
+	return q
+}
+
+// genC12Workspaces generates workspaces (include graphs over 2..5 files) with update sequences;
+// div scales the budgets down for callers that want a share of the stream (C10).
+func genC12Workspaces(c *Ctx, div int, emit func(files []c12File, ups []c12File)) {
+	r := c.R
+	maxUps := c.N(5, 8)
 
 	genCase := func(names []string, adj func(i, j int) bool, dangling []string, nUps int) {
 		dir := c12FakeDir
@@ -606,9 +644,9 @@ func genC12(c *Ctx) {
 	// 1. every include graph on 2 and 3 files (self loops included)
 	for n := 2; n <= 3; n++ {
 		total := 1 << (n * n)
-		stride := 1
+		stride := div
 		if n == 3 && !c.Thorough() {
-			stride = 2
+			stride = 2 * div
 		}
 		for g := 0; g < total; g += stride {
 			names, mode := c12Names(r, n)
@@ -622,7 +660,7 @@ func genC12(c *Ctx) {
 	// of recorded views); the offset depends on the seed
 	if c.Thorough() {
 		n := 4
-		for g := int(c.Seed % 7); g < 1<<(n*n); g += 7 {
+		for g := int(c.Seed % 7); g < 1<<(n*n); g += 7 * div {
 			names, mode := c12Names(r, n)
 			c.Count(mode)
 			c.Count(fmt.Sprintf("files.%d", n))
@@ -631,7 +669,7 @@ func genC12(c *Ctx) {
 		}
 	}
 	// 2. random workspaces of 2..5 files, sometimes with include targets that do not exist yet
-	for i := 0; i < c.N(900, 8000); i++ {
+	for i := 0; i < c.N(900, 8000)/div; i++ {
 		n := 2 + r.IntN(4)
 		names, mode := c12Names(r, n)
 		c.Count(mode)
@@ -657,13 +695,5 @@ func genC12(c *Ctx) {
 			}
 		}
 		genCase(names, func(i, j int) bool { return adjm[i*(n+2)+j] }, dangling, 1+r.IntN(maxUps))
-	}
-	// 3. resolveIncludePaths on its own
-	for i := 0; i < c.N(300, 5000); i++ {
-		names := []string{"main.journal", "a.journal", "b.journal", "sub/c.journal", "sub/e.journal"}
-		n := pick(r, names)
-		ts := c12Targets(r, n, names, 50)
-		text := c12Journal(r, c12FakeDir, n, ts, r.IntN(2))
-		c.Emit("c12.contrib", c12ContribCase(c, n, text))
 	}
 }
